@@ -1508,3 +1508,56 @@ def tt_layer_format(repo, tier="quick"):
                                "the reader interprets the layers by that rule") for laa, rec in bad]
     return [ob_ok(oid, fi, construct="3 layers x last_all_atom in {True, False}: only the last layer is atomistic, only if last_all_atom", instance="layers",
                   reason="abstract execution of write_cgsmiles: the format per layer is the one the reader assumes")]
+
+
+def prov_kept_hydrogens(repo, tier="quick"):
+    """C15 / C09: a hydrogen written as a bracket atom of its own ([H], [H;0.1], /[H]) stays a node of the fragment whatever its
+    annotations are: the set of hydrogens hidden from pysmiles' hydrogen removal is taken from the *keys* of the annotation
+    table (every bracket atom has an entry), never filtered by the annotation values.  A slash mark, a weight or a class label
+    is attached to that node by index afterwards; removing the node silently drops it."""
+    fi = repo.function("pysmiles_utils:read_fragment_smiles")
+    fl, cfg = fi.flow, fi.cfg
+    oid = "PROV.kept-hydrogens"
+    need("attributes" in fi.params, "anchor vanished: read_fragment_smiles has no `attributes` parameter", fi)
+    attrs = ("param", "attributes")
+    removes = [(c, n) for c, n in fl.calls() if isinstance(c.func, ast.Attribute) and c.func.attr == "remove_explicit_hydrogens"]
+    need(removes, "anchor vanished: read_fragment_smiles no longer calls pysmiles.remove_explicit_hydrogens", fi)
+    rcall, rnode = removes[0]
+    hides = []
+    for call, nid, _ in fl.calls_to("networkx.set_node_attributes"):
+        ct = fl.canon(call, nid)
+        a = list(ct[3]) + [None] * 3
+        kw = dict(ct[4])
+        name = a[2] if a[2] is not None else kw.get("name")
+        vals = a[1] if a[1] is not None else kw.get("values")
+        if name == ("const", "element") and vals is not None and cfg.dominates(nid, rnode) and nid != rnode:
+            hides.append((call, nid, vals))
+    if not hides:
+        return [ob_fail(oid, fi, rcall, construct="remove_explicit_hydrogens without hiding the annotated hydrogens first", instance="hidden-set",
+                        reason="every explicit hydrogen is folded into its neighbour's hydrogen count: hydrogens written as atoms of their own lose "
+                               "their node, and with it weight, slash mark and other annotations")]
+    obs = []
+    for call, nid, vals in hides:
+        uses_keys = False
+        by_value = None
+        for x in walk_term(vals):
+            if not isinstance(x, tuple) or not x:
+                continue
+            if x == attrs:
+                uses_keys = True
+            m = method_call(x)
+            if m and m[0] == attrs and m[1] in ("items", "values", "get", "pop"):
+                by_value = "attributes.%s()" % m[1]
+            if x[0] == "sub" and x[1] == attrs:
+                by_value = "attributes[...]"
+        if by_value:
+            obs.append(ob_fail(oid, fi, call, construct="hydrogens to keep are selected through %s" % by_value, instance="hidden-set",
+                               reason="whether a bracket hydrogen stays a node depends on the values of its annotations: a hydrogen that carries only "
+                                      "a slash mark (or default annotations) is removed and the mark written for its index is lost"))
+        elif uses_keys:
+            obs.append(ob_ok(oid, fi, call, construct="hydrogens to keep = keys of the annotation table that are hydrogens", instance="hidden-set",
+                             reason="every hydrogen written as a bracket atom stays a node"))
+        else:
+            obs.append(ob_undecided(oid, fi, call, construct="hidden hydrogens = %s" % show(vals)[:80], instance="hidden-set",
+                                    reason="the set of hydrogens hidden from the removal is not derived from the annotation table in a form the rule knows"))
+    return obs
